@@ -66,7 +66,7 @@ def model_all(M, progs, impl, budgets):
                 continue
             x = sexp.parse(o)
             bare = sexp.strip_knowledge(x[2])
-            lines.append("propagate %x %s %s %s" % (proggen.PRIMES[curve], kv, kd, sexp.show(bare)))
+            lines.append("propagate %x %s %s %s %s" % (proggen.PRIMES[curve], kv, kd, sexp.show(bare), sexp.show(x[3])))
             keys.append((i, kv, kd))
     outs = common.run_lines(M, [], lines, shards=common.NPROC, timeout=1200) if lines else []
     return {k: o for k, o in zip(keys, outs)}
@@ -94,7 +94,7 @@ def dvalidate_all(M, progs, impl, budgets):
             o = impl[(i, kv, kd)]
             if o.startswith("(ok "):
                 x = sexp.parse(o)
-                lines.append("djust %s" % sexp.show(x[2]))
+                lines.append("djust %s %s" % (sexp.show(x[2]), sexp.show(x[3])))
                 keys.append((i, kv, kd))
     outs = common.run_lines(M, [], lines, shards=common.NPROC, timeout=1200) if lines else []
     return {k: o for k, o in zip(keys, outs)}
